@@ -328,6 +328,8 @@ def run(tier, seed):
         specs.append(("family", base + 2 * 10 ** 6 + i, bin_, wr))
     for i in range(n[4]):
         specs.append(("lane", base + 3 * 10 ** 6 + i, bin_, wr))
+    from .. import probes
+    specs.append(("tiny2", probes.F14_RULES, bin_, wr))     # deterministic probe of known finding F14
     results = core.pmap(job, specs, chunksize=16)
     seen = set()
     for r in results:
